@@ -49,7 +49,9 @@ RULE = ("requests over two fixed schemas (objects, lists, non-null, enum, input 
         "empty message, a module-level instance raised by several fields, subclasses with one-argument, multi-positional "
         "and keyword-only constructors computing message/extensions, a subclass exposing extensions as a property; at root "
         "fields, nested fields and below list items; null in "
-        "non-null positions, null list items, non-finite floats): generated valid operations (aliases, inline and "
+        "non-null positions, null list items, non-finite floats as numbers and as text); non-finite numbers spelled as "
+        "text in literals (arguments, input-object fields, list items, variable defaults), in variable payloads and in "
+        "resolver outputs, with the stage at which each must be contained: generated valid operations (aliases, inline and "
         "named fragments, @skip/@include, mutations), every prefix of 7 seed documents, character and "
         "identifier mutants, hand-written schema-invalid documents, failing variable payloads, unknown operation "
         "names; each under graphql_blocking / process_graphql_query default / graphql (asyncio) / ThreadPoolRuntime; "
@@ -74,6 +76,23 @@ def corpus():
     # row 25: non-finite floats
     for i, (sn, t, w) in enumerate(G.FLOAT_RETURN_CASES):
         out.append(_resp_case(sn, t, w, config=G.CONFIGS[i % 4], label="float-return"))
+    # non-finite numbers spelled as text (seeded C10-c): literal / variable routes must be contained before
+    # execution; the resolver-output route is among FLOAT_RETURN_CASES above
+    for text, variables, expect in G.NONFINITE_LITERAL_CASES:
+        for cfg in G.CONFIGS:
+            c = _resp_case("A", text, {}, variables, None, cfg, "non-finite-literal")
+            c["expect"] = expect
+            out.append(c)
+    for text, payloads in G.NONFINITE_VARIABLE_CASES:
+        for i, pl in enumerate(payloads):
+            c = _resp_case("A", text, {}, pl, None, G.CONFIGS[i % 4], "non-finite-variable")
+            c["expect"] = ["variable-coercion"]
+            out.append(c)
+    for text, payloads in G.FINITE_TEXT_CASES:
+        for i, pl in enumerate(payloads):
+            c = _resp_case("A", text, {}, pl, None, G.CONFIGS[i % 4], "finite-text")
+            c["expect"] = ["execution"]
+            out.append(c)
     # empty ResolverError message, extensions, nulls in non-null positions
     for i, (sn, t, w) in enumerate(G.EXEC_CORPUS):
         for cfg in G.CONFIGS:
@@ -414,8 +433,10 @@ def run_impl(case):
     except Exception as e:  # noqa
         obs.update(kind="raised", cls=type(e).__name__, msg=str(e)[:300])
         obs["floats"] = encode_floats(ctx["floats"])
+        obs["nonfinite_args"] = ctx.get("nonfinite_args", [])
         return obs
     obs["floats"] = encode_floats(ctx["floats"])
+    obs["nonfinite_args"] = ctx.get("nonfinite_args", [])
     obs["raised_paths"] = ctx["raised"]
     obs["raised_ext"] = encode_floats(ctx["raised_ext"])
     try:
@@ -473,8 +494,15 @@ def _stages_term(case, obs):
         "None" if st["opselect"] is None else "(Some %s)" % ser.cstr(st["opselect"]),
         ser.clist(st["varcoercion"], cerr),
         ser.clist(st.get("rootcoercion", []), cerr),
-        ser.clist(decode_floats(obs.get("floats", [])), lambda f: cjnum(float(f))),
+        ser.clist(decode_floats(obs.get("floats", [])), lambda f: cjnum(_as_float(f))),
         ex)
+
+
+def _as_float(x):
+    try:
+        return float(x)
+    except OverflowError:
+        return float("inf")
 
 
 def to_coq(case, obs):
@@ -567,6 +595,11 @@ def direct_checks(case, obs):
         return out
     if _has_columne(obs):
         out.append(("syntax-error location spells the column key 'columne'", "columne-key"))
+    for where, val in obs.get("nonfinite_args", []):
+        out.append(("Float input coercion handed the non-finite number %s to the resolver at %s" % (val, where), None))
+    if case.get("expect") and _stage_name(obs) not in case["expect"]:
+        out.append(("a non-finite number spelled as text must be contained at the %s stage, reached: %s (%s)"
+                    % ("/".join(case["expect"]), _stage_name(obs), obs.get("kind")), None))
     if obs.get("kind") == "raised" and obs.get("cls") != "RuntimeError":
         out.append(("an exception escaped the entry point instead of a response: %s" % obs.get("cls"), None))
     # extensions as the raised error object exposed them (attribute or property), per raising position
